@@ -15,6 +15,7 @@ import (
 var vrfEntries = map[string]func(){
 	"VrfC02Worker": VrfC02Worker,
 	"VrfC02Direct": VrfC02Direct,
+	"VrfC02Age":    VrfC02Age,
 }
 
 func vrfCid(i int) cid.Cid {
@@ -37,6 +38,7 @@ type vrfBatchState struct {
 	commitsOK    int
 	committedOps int
 	failWrites   bool
+	neverFail    bool // commits always succeed (VrfC02Age)
 }
 
 func (s *vrfBatchState) cidIndex(c cid.Cid) int {
@@ -69,7 +71,7 @@ func (s *vrfBatchState) Marshal(io.Writer) error                  { return nil }
 func (s *vrfBatchState) Unmarshal(io.Reader) error                { return nil }
 func (s *vrfBatchState) Commit(context.Context) error {
 	s.commits++
-	if vrf_nondet_bool("commit_fails") {
+	if !s.neverFail && vrf_nondet_bool("commit_fails") {
 		vrf_event("commit fails")
 		return errors.New("datastore: commit failed")
 	}
@@ -197,4 +199,43 @@ func VrfC02Direct() {
 	vrf_assert((err == nil) == (bs.staged == 1), "C02.direct.error-returned")
 	vrf_assert(len(css.batchItemCh) == 0, "C02.direct.not-queued")
 	vrf_reach("C02.direct.end")
+}
+
+// VrfC02Age: the age limit is measured from the OLDEST operation of the batch.
+// Operations trickle in (arbitrary gaps of up to one age limit), the size
+// limit is out of reach, commits succeed: at every instant every staged
+// operation is younger than the age limit, and the worker committed exactly
+// when the oldest one reached it.
+func VrfC02Age() {
+	age := int64(vrfMaxAgeMS * time.Millisecond)
+	bs := &vrfBatchState{neverFail: true}
+	ctx, cancel := context.WithCancel(context.Background())
+	cfg := &Config{}
+	cfg.Batching = BatchingConfig{MaxBatchSize: 100, MaxBatchAge: time.Duration(age), MaxQueueSize: 10}
+	css := &Consensus{ctx: ctx, cancel: cancel, config: cfg, batchingState: bs, batchItemCh: make(chan batchItem, 10)}
+	go css.batchWorker()
+	vrf_yield()
+	var t int64
+	var acceptedAt []int64
+	k := vrf_param("events")
+	for e := 0; e <= k; e++ {
+		if e < k {
+			err := css.LogPin(ctx, api.PinCid(vrfCid(e%2)))
+			vrf_assert(err == nil, "C02.age.accepted")
+			acceptedAt = append(acceptedAt, t)
+			vrf_yield()
+		}
+		gap := vrf_nondet_int64("gap")
+		vrf_assume(vrf_and(gap >= 0, gap <= age+age/2))
+		vrf_elapse(gap)
+		t += gap
+		vrf_assert(len(bs.ops) == len(acceptedAt), "C02.age.taken-from-queue")
+		if bs.staged > 0 && bs.staged <= len(acceptedAt) {
+			oldest := acceptedAt[len(acceptedAt)-bs.staged]
+			vrf_assert(t-oldest < age, "C02.age.measured-from-oldest")
+		}
+	}
+	cancel()
+	vrf_yield()
+	vrf_reach("C02.age.end")
 }
